@@ -19,6 +19,7 @@ type C17Case struct {
 	B      m.V    `json:"b"`    // list / set (in) or right list (overlap)
 	ALit   bool   `json:"alit"` // pass A as a literal (else as a variable)
 	BLit   bool   `json:"blit"`
+	Infix  bool   `json:"infix,omitempty"` // written in infix notation: in(a, [..]) / overlap([..], [..])
 	Origin string `json:"origin,omitempty"`
 }
 
@@ -88,7 +89,7 @@ func genListPair(t *rapid.T, strs bool) (interface{}, interface{}) {
 }
 
 func genC17(t *rapid.T) C17Case {
-	c := C17Case{ALit: rapid.Bool().Draw(t, "alit"), BLit: rapid.Bool().Draw(t, "blit")}
+	c := C17Case{ALit: rapid.Bool().Draw(t, "alit"), BLit: rapid.Bool().Draw(t, "blit"), Infix: rapid.IntRange(0, 3).Draw(t, "infix") == 0}
 	strs := rapid.Bool().Draw(t, "strs")
 	if rapid.Bool().Draw(t, "overlap") {
 		c.Op = "overlap"
@@ -188,10 +189,17 @@ func c17Expr(c C17Case, swap bool) (string, map[string]interface{}) {
 	vars := map[string]interface{}{}
 	operand := func(name string, v interface{}, lit bool) string {
 		if lit && hasLiteralForm(v) {
-			return m.RenderVal(v)
+			s := m.RenderVal(v)
+			if c.Infix && isList(v) {
+				return "[" + s[1:len(s)-1] + "]"
+			}
+			return s
 		}
 		vars[name] = v
 		return name
+	}
+	if c.Infix {
+		return c.Op + "(" + operand("va", a, alit) + ", " + operand("vb", b, blit) + ")", vars
 	}
 	return "(" + c.Op + " " + operand("va", a, alit) + " " + operand("vb", b, blit) + ")", vars
 }
@@ -210,8 +218,11 @@ func listLen(v interface{}) int {
 	return -1
 }
 
-func c17Eval(src string, vars map[string]interface{}, mask int) (Outcome, Outcome) {
+func c17Eval(src string, vars map[string]interface{}, mask int, infix bool) (Outcome, Outcome) {
 	cc := eval.NewConfig()
+	if infix {
+		eval.EnableInfixNotation(cc)
+	}
 	for i, o := range allOpts {
 		cc.CompileOptions[o] = mask&(1<<i) != 0
 	}
@@ -229,7 +240,7 @@ func checkC17(c C17Case, r *Rec) *Violation {
 	want, werr := f([]interface{}{c.A.X, c.B.X})
 	src, vars := c17Expr(c, false)
 	for _, mask := range []int{0, MaskFold, MaskFast, 15} {
-		co, o := c17Eval(src, vars, mask)
+		co, o := c17Eval(src, vars, mask, c.Infix)
 		if co.Panic != nil || co.Err != nil {
 			return Violf("C17: compile failed for %s: %v", clip(src, 200), co)
 		}
@@ -239,7 +250,7 @@ func checkC17(c C17Case, r *Rec) *Violation {
 		if c.Op == "overlap" {
 			// symmetry, asserted directly on the engine
 			src2, vars2 := c17Expr(c, true)
-			_, o2 := c17Eval(src2, vars2, mask)
+			_, o2 := c17Eval(src2, vars2, mask, c.Infix)
 			if !SameOutcome(o, o2) {
 				return Violf("C17: overlap is not symmetric (config %s)\n%s -> %v\n%s -> %v\na=%s\nb=%s", maskName(mask), clip(src, 200), o, clip(src2, 200), o2, clip(renderAny(c.A.X), 600), clip(renderAny(c.B.X), 600))
 			}
@@ -320,6 +331,9 @@ func sweepC17(tier string, shard, shards int, emit func(C17Case)) {
 					}
 					for _, lit := range []bool{false, true} {
 						emit(C17Case{Op: "overlap", A: m.V{X: va}, B: m.V{X: vb}, ALit: lit, BLit: !lit, Origin: "sweep"})
+					}
+					if (la+lb+common)%3 == 0 {
+						emit(C17Case{Op: "overlap", A: m.V{X: va}, B: m.V{X: vb}, ALit: true, BLit: true, Infix: true, Origin: "sweep-infix"})
 					}
 					// in: probe = the planted element (or an absent one)
 					var probe interface{} = int64(-7)
